@@ -256,10 +256,11 @@ Proof.
            exists (S r). split; [reflexivity|lia].
   - (* arrive *)
     destruct (stopped c) eqn:Est.
-    + inversion H; subst. unfold rwf; cbn [core ph queue]; repeat split; auto.
+    + inversion H; subst. unfold rwf; cbn [core ph queue]. split; [auto|split; [auto|]].
+      destruct p; auto. destruct Hph as (_ & Hc & _); discriminate.
     + destruct p as [|snap j|snap].
       * inversion H; subst. unfold rwf; cbn [core ph queue]; repeat split; auto.
-      * inversion H; subst. unfold rwf; cbn [core ph queue]; repeat split; auto.
+      * inversion H; subst. unfold rwf; cbn [core ph queue]; repeat split; auto; apply Hph.
       * destruct Hph as (Hq & Hst & Hs & Hlt & Htm).
         eapply rd_wf; [exact H|auto|auto|]. cbn. auto.
   - (* pause *)
@@ -277,13 +278,14 @@ Proof.
     destruct Hph as (Hq & Hst & Hs & Hlt & Htm). repeat split; auto. discriminate.
   - (* stop *)
     destruct (stopped c) eqn:Est.
-    + inversion H; subst. unfold rwf; cbn [core ph queue]; repeat split; auto.
-    + destruct p as [|snap j|snap]; inversion H; subst; unfold rwf; cbn [core ph queue]; repeat split; auto.
+    + inversion H; subst. unfold rwf; cbn [core ph queue]. split; [auto|split; [auto|]].
+      destruct p; auto. destruct Hph as (_ & Hc & _); discriminate.
+    + destruct p as [|snap j|snap]; inversion H; subst; unfold rwf; cbn [core ph queue]; repeat split; auto; apply Hph.
   - (* call *)
     destruct p as [|snap j|snap].
     + eapply rd_wf; [exact H| | |exact I]; cbn; auto.
-    + inversion H; subst. unfold rwf; cbn [core ph queue]; repeat split; auto.
-    + inversion H; subst. unfold rwf; cbn [core ph queue]; repeat split; auto.
+    + inversion H; subst. unfold rwf; cbn [core ph queue]; repeat split; auto; apply Hph.
+    + inversion H; subst. unfold rwf; cbn [core ph queue]; repeat split; auto; apply Hph.
 Qed.
 
 Lemma rinit_wf : rwf (rinit L).
